@@ -203,6 +203,10 @@ func typeFromAST(schema Schema, inputTypeAST ast.Type) (Type, error) {
 		ttype := schema.Type(nameValue)
 		return ttype, nil
 	default:
+		// A type reference the parser left empty is nil: not a named type either.
+		if inputTypeAST == nil {
+			return nil, invariant(false, "Must be a named type.")
+		}
 		return nil, invariant(inputTypeAST.GetKind() == kinds.Named, "Must be a named type.")
 	}
 }
